@@ -71,8 +71,11 @@ func DrawSibling(t *rapid.T, prev *OpDesc) OpDesc {
 // callers at once.
 func DrawStorm(t *rapid.T, nclients int) [][]OpDesc {
 	d0 := DrawOp(t)
-	if rapid.Bool().Draw(t, "stormfilter") {
+	switch rapid.IntRange(0, 7).Draw(t, "stormkind") {
+	case 0, 1, 2, 3:
 		d0.Kind = 0 // filters are the hot path where caches and fast paths get added
+	case 4, 5:
+		d0.Kind = len(frameOps) - 2 // "renew": several callers building frames at once
 	}
 	switch rapid.IntRange(0, 3).Draw(t, "stormrecv") {
 	case 0, 1:
